@@ -18,7 +18,7 @@ from hypothesis import strategies as st
 from pbt.harness import viol
 
 PROPERTY_ID = "C17"
-RULE = ("case = 1-4 variable signals (arrays of 1..30 entries, python/numpy scalars), scalar or per-variable xmin/xmax (float, or integer-typed: python ints / integer arrays, for either or both), "
+RULE = ("case = 1-4 variable signals (arrays of 1..30 entries, python/numpy scalars; given as plain Signals, as basic slices of one design Signal, or with pre-allocated sensitivity buffers), scalar or per-variable xmin/xmax (float, or integer-typed: python ints / integer arrays, for either or both), "
         "move limit, volume target from infeasible-low to infeasible-high (or the default), objective sum c_i/x_i^q "
         "(q=1,2,3) or the compliance of a small FE model, maxit, stopping tolerances, bisection parameters, payload "
         "seed. One case = one minimize_oc run; every design transition is checked. Non-trivial = at least 2 "
@@ -65,6 +65,9 @@ def strategy(tier):
             # integer-typed bounds (python ints, integer arrays) are as admissible as floats: xmin=0/xmax=1 is the
             # usual way of calling it
             "bound_type": draw(st.sampled_from(["float", "float", "int", "int_lo", "int_hi"])),
+            # how the variable signals are given: plain Signals, basic slices of one design Signal (array kinds only),
+            # or Signals constructed with a pre-allocated sensitivity buffer (reset() then clears it in place)
+            "var_form": draw(st.sampled_from(["signals", "signals", "slices", "prealloc"])),
             "move": draw(st.sampled_from([0.2, 0.1, 0.3, 0.5])) if conv else
             draw(st.one_of(st.sampled_from([0.2, 0.1, 0.05, 0.5, 0.01]), st.floats(0.01, 0.5))),
             "vol": draw(st.floats(0.02, 0.98)) if conv else
@@ -236,15 +239,29 @@ def build_problem(case):
     return prob
 
 
+def var_form(case, prob):
+    form = case.get("var_form", "signals")
+    if form == "slices" and any(kd != "arr" for kd in prob["kinds"]):
+        form = "signals"
+    return form
+
+
 def run_oc(case, prob, log):
     M = _modules()
     pym = M["pym"]
     cum = prob["cum"]
     variables = []
+    form = var_form(case, prob)
+    base = pym.Signal("xall", state=np.array(prob["x0"], dtype=float)) if form == "slices" else None
     for i, kind in enumerate(prob["kinds"]):
         v = prob["x0"][cum[i]:cum[i + 1]]
         state = float(v[0]) if kind == "pyfloat" else (np.float64(v[0]) if kind == "npfloat" else np.array(v))
-        variables.append(pym.Signal(f"x{i}", state=state))
+        if form == "slices":
+            variables.append(base[int(cum[i]):int(cum[i + 1])])
+        elif form == "prealloc" and kind == "arr":
+            variables.append(pym.Signal(f"x{i}", state=state, sensitivity=np.zeros_like(state)))
+        else:
+            variables.append(pym.Signal(f"x{i}", state=state))
     net = pym.Network()
     rec_out = net.append(M["Recorder"](variables, [pym.Signal(f"xr{i}") for i in range(len(variables))], log=log))
     rec_out = rec_out if isinstance(rec_out, (list, tuple)) else [rec_out]
@@ -351,6 +368,7 @@ def check_case(case, _debug=None):
               f"xmax:{case['xmax_form']}", "maxvol:default" if case["vol"] is None else "maxvol:given",
               f"l1l2tol:{case['l1l2tol']}", f"gexp:{case['gexp']}"]
     labels.append("bounds:" + case.get("bound_type", "float"))
+    labels.append("variables:" + var_form(case, prob))
     if "per_var" in (case["xmin_form"], case["xmax_form"]):
         labels.append("per_var_bounds")
     if any(kd != "arr" for kd in prob["kinds"]):
